@@ -42,7 +42,7 @@ func checkC14(c LifeCase, st *Stats) error {
 	return err
 }
 
-var propC14 = Register(Prop[LifeCase]{ID: "C14", Name: "C14", Check: checkC14})
+var propC14 = Register(Prop[LifeCase]{ID: "C14", Name: "C14", Pending: true, Check: checkC14})
 
 func TestC14Rapid(t *testing.T) {
 	p := propC14
@@ -330,8 +330,8 @@ func checkSock(id string) func(SockCase, *Stats) error {
 	}
 }
 
-var propC14Sock = Register(Prop[SockCase]{ID: "C14", Name: "C14sock", Check: checkSock("C14")})
-var propC15Sock = Register(Prop[SockCase]{ID: "C15", Name: "C15sock", Check: checkSock("C15")})
+var propC14Sock = Register(Prop[SockCase]{ID: "C14", Name: "C14sock", Pending: true, Check: checkSock("C14")})
+var propC15Sock = Register(Prop[SockCase]{ID: "C15", Name: "C15sock", Pending: true, Check: checkSock("C15")})
 
 func sockCases(timeoutMS int) []SockCase {
 	var cases []SockCase
@@ -382,7 +382,7 @@ func checkC15(c LifeCase, st *Stats) error {
 	return err
 }
 
-var propC15 = Register(Prop[LifeCase]{ID: "C15", Name: "C15", Check: checkC15})
+var propC15 = Register(Prop[LifeCase]{ID: "C15", Name: "C15", Pending: true, Check: checkC15})
 
 func TestC15Rapid(t *testing.T) {
 	p := propC15
